@@ -1,12 +1,13 @@
 import ParryModel.Proto
 import ParryModel.C19.ModelTopo
+import ParryModel.C19.Model
 import Std.Data.HashMap
 /-! C19 protocol handlers for the index generators (`transformation/utils.rs`) and the index buffers of the
 discretized primitives.  Model output: the list of faces, compared token for token with what the real code pushed.
 Oracles: independent combinatorial judgements of the *implementation's* buffer (hash-map edge counts, Euler
 characteristic, connectivity) — they never call the model functions. -/
 namespace C19.TopoDriver
-open Model.Topo Proto
+open Model Model.Topo Proto
 
 abbrev Tri := Nat × Nat × Nat
 abbrev Edge := Nat × Nat
@@ -176,6 +177,47 @@ def handler (fn : String) : Option Handler :=
           if (t.zip t').all fun ((a, b, c), f) => f == (b, a, c) || f == (a, c, b) || f == (c, b, a) then "pass"
           else "fail face-not-reversed"
         | _, _ => "fail unparsable-output" }
+  | "push_circle" => some {
+      model := fun a => run (do
+        let r ← pf; let n ← pnat; let dt ← pf; let y ← pf; let _full ← pbool
+        let pts := pushCircle (fun θ => (Float.cos θ, Float.sin θ)) r n dt y
+        pure (pts.foldl (fun s p => s ++ " " ++ fv3 p) s!"{pts.length}")) a
+      oracle := fun a o => match run (do let r ← pf; let n ← pnat; let dt ← pf; let y ← pf; let full ← pbool; pure (r, n, dt, y, full)) a with
+        | some (r, n, _dt, y, full) => (match o with
+          | "panic" :: _ => "fail panic"
+          | _ => match run (do let pts ← plist (do let x ← pfo; let y ← pfo; let z ← pfo; pure (⟨x, y, z⟩ : V3 Float)); pend; pure pts) o with
+            | some pts =>
+              if pts.length != n then "fail vertex-count" else
+              if !(pts.all finite3) then "fail nonfinite-vertex" else
+              let R := q r; let Y := q y
+              let P0 := (pts.map q3).toArray
+              let P : Nat → V3 Rat := fun i => P0[i]?.getD ⟨0, 0, 0⟩
+              let near (a b : Rat) : Bool := rabs (a - b) ≤ (1 / 1000000000 : Rat) * (1 + rabs a + rabs b)
+              -- every vertex on the circle of radius r at height y (the statement of `pushCircle_on_boundary`)
+              if !(P0.all fun p => p.y == Y && near (p.x * p.x + p.z * p.z) (R * R)) then "fail vertex-off-circle" else
+              if n == 0 then "pass" else
+              -- first vertex at angle 0
+              if !(near (P (0)).x R && near (P (0)).z 0) then "fail first-vertex-not-at-angle-0" else
+              if n == 1 then "pass" else
+              -- consecutive directions differ by one fixed rotation (c, s) = direction of vertex 1: the hypothesis of the
+              -- outward-orientation theorems (Theorems3.lean)
+              let c := (P (1)).x / R; let s := (P (1)).z / R
+              let rotOk := (List.range (n - 1)).all fun i =>
+                let u := P (i); let v := P (i + 1)
+                near v.x (u.x * c - u.z * s) && near v.z (u.z * c + u.x * s)
+              if !rotOk then "fail not-a-constant-rotation-step" else
+              if !full then "pass" else
+              -- dtheta = 2π/n: one full counterclockwise turn, closed by the same rotation, sin Δ > 0 for n ≥ 3
+              let u := P (n - 1)
+              if !(near R (u.x * c - u.z * s) && near 0 (u.z * c + u.x * s)) then "fail circle-not-closed" else
+              if n ≥ 3 && !(s > 0) then "fail step-not-counterclockwise" else
+              -- single winding: vertices 0 < i < n/2 lie strictly on the z > 0 side, n/2 < i < n on the z < 0 side
+              let windOk := (List.range n).all fun i =>
+                let z := (P (i)).z / R
+                if 0 < i && 2 * i < n then z > 0 else if n < 2 * i then z < 0 else true
+              if windOk then "pass" else "fail more-than-one-turn"
+            | none => "fail unparsable-output")
+        | none => "skip bad-args" }
   | "cone_indices" => some <| meshIdxHandler
       (fun | [n] => some (coneNumVertices n) | _ => none)
       (fun | [n] => some (coneIndices n) | _ => none)
